@@ -77,7 +77,7 @@ def items_of(env, t):
     return [env.km.ik(k) for k in t] if env.setlike else [(env.km.ik(k), env.vm.iv(v)) for k, v in t.items()]
 
 
-def check_copy(ctx, env, orig_items, o, how, followup, fn, kind, impl, info, orig):
+def check_copy(ctx, env, orig_items, o, how, followup, fn, kind, impl, info, orig, src=None):
     """o must have the contents, be sound, and behave like the original under follow-up calls.
     _check() runs FIRST: iterating an unsound C tree can crash the process."""
     bad = None
@@ -102,7 +102,9 @@ def check_copy(ctx, env, orig_items, o, how, followup, fn, kind, impl, info, ori
         bad = "raises-" + type(e).__name__
     if bad:
         info = dict(info, message=locals().get("msg"))
-        f16 = kind in ("BTree", "TreeSet") and f16_condition(env, orig)
+        # (the shape that matters is the one of the container that was serialized: after &= the C twin
+        #  used for the follow-up comparison can have another shape -- finding F17)
+        f16 = kind in ("BTree", "TreeSet") and f16_condition(env, src if src is not None else orig)
         how2 = how.split("-proto-")[0]
         ctx.oracle_failure("%s:%s:%s:%s%s" % (impl, how2, kind, bad, ":embedded-leaf-below-root" if f16 else ""),
                            "%s%s/%s %s: %s%s" % (fn, kind, impl, how, bad, " (a non-root interior node holds a single leaf: its state is embedded in the node AND referenced by the chain)" if f16 else ""), info)
@@ -173,7 +175,7 @@ def run(ctx):
                         # with the C extension importable both implementations unpickle as the C class
                         env_l = TreeEnv(fn, kind, "C", mode)
                         env_l.km, env_l.vm = env.km, env.vm
-                        check_copy(ctx, env_l, base, o, "pickle-proto-%d" % proto, followup, fn, kind, impl, info, rebuild(env_l, calls, env))
+                        check_copy(ctx, env_l, base, o, "pickle-proto-%d" % proto, followup, fn, kind, impl, info, rebuild(env_l, calls, env), src=t)
                     except Exception as e:  # noqa
                         ctx.oracle_failure("%s:pickle:%s:raises-%s" % (impl, kind, type(e).__name__), "%s%s/%s pickle protocol %d raised %r" % (fn, kind, impl, proto, e), info)
                 # ---- copy
@@ -185,7 +187,7 @@ def run(ctx):
                         envc = TreeEnv(fn, kind, "C" if type(o).__name__.endswith("Py") is False else "Py", mode)
                         envc.km, envc.vm = env.km, env.vm
                         multi = kind in ("BTree", "TreeSet") and len(env.leaf_objects(t)) >= 2
-                        check_copy(ctx, envc, base, o, how + (":multi-leaf" if multi else ""), [] if how == "copy.copy" else followup, fn, kind, impl, info, rebuild(envc, calls, env))
+                        check_copy(ctx, envc, base, o, how + (":multi-leaf" if multi else ""), [] if how == "copy.copy" else followup, fn, kind, impl, info, rebuild(envc, calls, env), src=t)
                     except Exception as e:  # noqa
                         multi = kind in ("BTree", "TreeSet") and len(env.leaf_objects(t)) >= 2
                         ctx.oracle_failure("%s:%s%s:%s:raises-%s" % (impl, how, ":multi-leaf" if multi else "", kind, type(e).__name__),
